@@ -405,7 +405,7 @@ def rule_g2(ctx):
         if "index_mut" in how:
             continue
         for (r, p) in tr:
-            if r == SELF1 and p and "op" in p and "as Input" not in p:
+            if r == SELF1 and p and (("op" in p and "as Input" not in p) or "output_regs" in p):
                 reads.add(norm(p))
     if len(reads) < 5:
         raise AnchorMissing("G2: eval reads only %d operand registers" % len(reads))
